@@ -386,6 +386,28 @@ func (c *FnCtx) tryLookup(env *Env, name string) (v Val, ok bool) {
 	return c.lookup(env, name), true
 }
 
+// tryLookupPath resolves a dotted path a.b.c whose head is a variable (not a package).
+func (c *FnCtx) tryLookupPath(env *Env, path string) (v Val, ok bool) {
+	parts := strings.Split(path, ".")
+	head, ok := c.tryLookup(env, parts[0])
+	if !ok {
+		return Val{}, false
+	}
+	defer func() {
+		if r := recover(); r != nil {
+			if _, isSpec := r.(specError); isSpec {
+				ok = false
+				return
+			}
+			panic(r)
+		}
+	}()
+	for _, p := range parts[1:] {
+		head = c.selectField(env, head, p)
+	}
+	return head, true
+}
+
 func (c *FnCtx) ptrLocNoCheck(p Val) *Loc {
 	if p.Loc != nil {
 		return p.Loc
@@ -587,8 +609,89 @@ func (c *FnCtx) indexVal(env *Env, base, idx Val) Val {
 	panic(specError("index on " + base.T.String()))
 }
 
+// evalMethod: spec-level call of a read-only library method (protoreflect accessors, pure library methods); it
+// denotes the same uninterpreted function the code's own call is translated to.
+func (c *FnCtx) evalMethod(env *Env, recv Val, name string, args []Val) Val {
+	if isProtoreflectType(recv.T) {
+		if it, ok := recv.T.Underlying().(*types.Interface); ok {
+			for i := 0; i < it.NumMethods(); i++ {
+				if m := it.Method(i); m.Name() == name {
+					r := c.uninterp(nil, "inv$"+shortTypeName(recv.T)+"."+name, append([]Val{recv}, args...), m.Type().(*types.Signature).Results())
+					return *r
+				}
+			}
+		}
+	}
+	for _, t := range []types.Type{recv.T, types.NewPointer(recv.T)} {
+		ms := c.eng.prog.MethodSets.MethodSet(t)
+		for i := 0; i < ms.Len(); i++ {
+			if ms.At(i).Obj().Name() != name {
+				continue
+			}
+			fn := c.eng.prog.MethodValue(ms.At(i))
+			if fn != nil && c.eng.isPureLib(fn) {
+				r := c.uninterp(nil, "lib$"+c.eng.funcName(fn), append([]Val{recv}, args...), fn.Signature.Results())
+				return *r
+			}
+			if fn != nil {
+				if pf := c.eng.preludeFor(fn); pf != nil && env.st != nil {
+					if r := pf(c, env.fr, env.st, fn, append([]Val{recv}, args...), 0); r != nil {
+						return *r
+					}
+				}
+			}
+		}
+	}
+	panic(specError("method " + name + " cannot be used in specifications (not a pure library accessor)"))
+}
+
 func (c *FnCtx) evalCall(env *Env, x *ECall) Val {
 	arg := func(i int) Val { return c.eval(env, x.Args[i]) }
+	if x.Recv != nil {
+		var as []Val
+		for i := range x.Args {
+			as = append(as, arg(i))
+		}
+		return c.evalMethod(env, c.eval(env, x.Recv), x.Fun, as)
+	}
+	if k := strings.LastIndex(x.Fun, "."); k > 0 {
+		// v.M(...) where v is a variable: a method call, not a package-qualified function
+		if rv, ok := c.tryLookupPath(env, x.Fun[:k]); ok {
+			var as []Val
+			for i := range x.Args {
+				as = append(as, arg(i))
+			}
+			return c.evalMethod(env, rv, x.Fun[k+1:], as)
+		}
+	}
+	if x.Fun == "app0" || x.Fun == "app1" {
+		fv := arg(0)
+		sig, isSig := fv.T.Underlying().(*types.Signature)
+		cb := c.eng.callbackSpec(fv.T)
+		if !isSig || cb == nil || !cb.Pure {
+			panic(specError(x.Fun + ": not a function value of a type declared 'callback ...: pure'"))
+		}
+		all := []Val{{T: fv.T, E: fv.E}}
+		for i := 1; i < len(x.Args); i++ {
+			a := arg(i)
+			if i-1 < sig.Params().Len() {
+				pt := sig.Params().At(i - 1).Type()
+				if a.E == "NIL" {
+					a = Val{T: pt, E: c.ty.Zero(pt)}
+				}
+				a.T = pt
+			}
+			all = append(all, a)
+		}
+		r := c.uninterp(nil, "cb$"+cb.Name, all, sig.Results())
+		if sig.Results().Len() == 1 {
+			return *r
+		}
+		if x.Fun == "app0" {
+			return r.Tuple[0]
+		}
+		return r.Tuple[1]
+	}
 	switch x.Fun {
 	case "old":
 		ne := *env
@@ -677,6 +780,9 @@ func (c *FnCtx) evalCall(env *Env, x *ECall) Val {
 		return Val{T: v.T, E: "(ite (< " + v.E + " 0) (- " + v.E + ") " + v.E + ")"}
 	case "min", "max":
 		a, b := c.unify(arg(0), arg(1))
+		if c.ty.SortOf(a.T) == sFlt {
+			return Val{T: a.T, E: "(f" + x.Fun + " " + a.E + " " + b.E + ")"}
+		}
 		op := "<"
 		if x.Fun == "max" {
 			op = ">"
